@@ -530,10 +530,27 @@ def run(chk, prog):
         chk.require(kind_ok, "S4", "%s runs %s" % (typ, m), where(call, ex), "task type %s is dispatched to %s" % (typ, m),
                     function=ex["full"], construct="dispatch %s" % typ)
         if m.startswith("outer_"):
-            dir_ok = C.is_call(C.strip_casts(call["a"][0]), name="get_interaction_direction", cls="Task")
+            # arguments may be passed through const locals / references initialised in the same function
+            ldefs = {}
+            for s2 in C.walk_stmt(ex["body"]):
+                if s2.get("k") == "Decl":
+                    for d in s2["d"]:
+                        if d.get("init") is not None:
+                            ldefs[d["id"]] = d["init"]
+
+            def expand(e, depth=0):
+                """All sub-expressions of e, looking through locals to their initialisers."""
+                for x in C.walk(e):
+                    yield x
+                    if x.get("k") == "Ref" and x.get("id") in ldefs and depth < 4:
+                        yield from expand(ldefs[x["id"]], depth + 1)
+            a0 = C.strip_casts(call["a"][0])
+            dir_ok = C.is_call(a0, name="get_interaction_direction", cls="Task") or \
+                (a0.get("k") == "Ref" and a0.get("id") in ldefs and
+                 C.is_call(C.strip_casts(ldefs[a0["id"]]), name="get_interaction_direction", cls="Task"))
             ngb_ok = True
             if "ghost" not in m:
-                ngb_ok = any(C.is_call(x, name="get_buffer", cls="Task") for a in call["a"] for x in C.walk(a))
+                ngb_ok = any(C.is_call(x, name="get_buffer", cls="Task") for a in call["a"] for x in expand(a))
             n4 += 1
             chk.require(dir_ok and ngb_ok, "S4", "%s sweeps the face / neighbour stored in the task" % typ,
                         where(call, ex), "direction from the task: %s, neighbour from the task: %s" % (dir_ok, ngb_ok),
